@@ -35,6 +35,16 @@ func c07PolDirected(r *vu.Rng, c *vsCluster) []client.Object {
 		}
 		return out
 	}
+	// how many entries other controllers left: often at the limit of 16 or one below it
+	nForeign := func() int {
+		switch r.Intn(3) {
+		case 0:
+			return 16
+		case 1:
+			return 15
+		}
+		return 1 + r.Intn(14)
+	}
 	op := func(ns, name string, targets [][2]string) *ngfAPIv1alpha2.ObservabilityPolicy {
 		p := &ngfAPIv1alpha2.ObservabilityPolicy{ObjectMeta: metav1.ObjectMeta{Namespace: ns, Name: name, Generation: gen()},
 			Spec: ngfAPIv1alpha2.ObservabilityPolicySpec{Tracing: &ngfAPIv1alpha2.Tracing{Strategy: ngfAPIv1alpha2.TraceStrategyParent}}}
@@ -42,7 +52,7 @@ func c07PolDirected(r *vu.Rng, c *vsCluster) []client.Object {
 			p.Spec.TargetRefs = append(p.Spec.TargetRefs, v1alpha2.LocalPolicyTargetReference{Group: gatewayv1.GroupName, Kind: gatewayv1.Kind(t[0]), Name: gatewayv1.ObjectName(t[1])})
 		}
 		if r.Chance(1, 4) {
-			p.Status.Ancestors = foreign(1 + r.Intn(3))
+			p.Status.Ancestors = foreign(nForeign())
 		}
 		return p
 	}
@@ -57,7 +67,7 @@ func c07PolDirected(r *vu.Rng, c *vsCluster) []client.Object {
 			p.Spec.KeepAlive = &ngfAPIv1alpha1.ClientKeepAlive{Time: &d}
 		}
 		if r.Chance(1, 4) {
-			p.Status.Ancestors = foreign(1 + r.Intn(15))
+			p.Status.Ancestors = foreign(nForeign())
 		}
 		return p
 	}
@@ -86,6 +96,9 @@ func c07PolDirected(r *vu.Rng, c *vsCluster) []client.Object {
 				Spec: ngfAPIv1alpha1.UpstreamSettingsPolicySpec{ZoneSize: helpers.GetPointer(ngfAPIv1alpha1.Size("2m"))}}
 			for _, n := range names[:2] {
 				p.Spec.TargetRefs = append(p.Spec.TargetRefs, v1alpha2.LocalPolicyTargetReference{Group: "", Kind: "Service", Name: gatewayv1.ObjectName(n)})
+			}
+			if r.Chance(1, 3) {
+				p.Status.Ancestors = foreign(nForeign())
 			}
 			objs = append(objs, p)
 		}
